@@ -86,6 +86,11 @@ def params_of(resolver):
     return [[str(k), v] for k, v in resolver.param_dict.items()]
 
 
+def same_params(a, b):
+    """two assignments read from the implementation"""
+    return len(a) == len(b) and all(k1 == k2 and abs(complex(v1) - complex(v2)) < 1e-12 for (k1, v1), (k2, v2) in zip(a, b))
+
+
 def close_params(a, b):
     if len(a) != len(b):
         return False
@@ -116,7 +121,9 @@ def run(ctx: common.Run):
         return
     n = 150 if ctx.tier == 'quick' else 2500
     check_sweeps(ctx, cirq, n)
+    check_sweepables(ctx, cirq)
     check_resolver(ctx, cirq, sympy, n)
+    check_linear_combinations(ctx, cirq, sympy, max(30, n // 4))
     check_circuits(ctx, cirq, sympy, max(20, n // 5))
     check_gate_families(ctx, cirq, sympy, 3 if ctx.tier == 'quick' else 25)
     check_compose(ctx, cirq, sympy, n)
@@ -163,9 +170,80 @@ def check_sweeps(ctx, cirq, n):
             if len(got) != len(o) or not all(close_params(a, b) for a, b in zip(got, o)):
                 problems.append((f'slice{sl}', got[:5], o[:5]))
                 break
+        # the conversion functions enumerate the same assignments (an empty sweep has none, not one empty assignment)
+        for cname, conv in (('to_resolvers', lambda: list(cirq.to_resolvers(obj))), ('to_sweeps', lambda: [r for sw in cirq.to_sweeps(obj) for r in sw]),
+                            ('to_sweep', lambda: list(cirq.to_sweep(obj))), ('to_resolvers(list)', lambda: list(cirq.to_resolvers([obj, obj])))):
+            try:
+                got = [params_of(r) for r in conv()]
+            except (TypeError, ValueError) as e:
+                problems.append((cname, f'{type(e).__name__}: {e}'[:100], len(tuples)))
+                continue
+            want_t = tuples + tuples if cname.endswith('(list)') else tuples
+            if len(got) != len(want_t) or not all(same_params(a, b) for a, b in zip(got, want_t)):
+                problems.append((cname, got[:6], want_t[:6]))
         for name, got, want in problems:
             ctx.report_witness(f'sweep:{name.split("[")[0].split("{")[0]}', f'{name} of the sweep differs from what its definition describes',
                                {'lines': [{'sweep': repr(obj)}], 'impl_out': [got], 'spec_out': [want], 'theorem_or_correspondence': 'C10_len_eq_tuples / C10_getItem_eq'})
+
+
+def check_sweepables(ctx, cirq):
+    """every form of a sweepable converts to the assignments it stands for"""
+    import sympy
+
+    R = cirq.ParamResolver
+    cases = [
+        ('None', None, [{}]), ('resolver', R({'a': 1.0}), [{'a': 1.0}]), ('empty resolver', R({}), [{}]), ('dict', {'a': 1.0}, [{'a': 1.0}]), ('empty dict', {}, [{}]),
+        ('dict of lists', {'a': [1.0, 2.0], 'b': [3.0]}, [{'a': 1.0, 'b': 3.0}, {'a': 2.0, 'b': 3.0}]), ('dict of tuples', {'a': (1.0, 2.0)}, [{'a': 1.0}, {'a': 2.0}]),
+        ('empty list', [], []), ('list of resolvers', [R({'a': 1.0}), R({'a': 2.0})], [{'a': 1.0}, {'a': 2.0}]), ('list of dicts', [{'a': 1.0}, {'b': 2.0}], [{'a': 1.0}, {'b': 2.0}]),
+        ('empty points', cirq.Points('a', []), []), ('empty zip', cirq.Zip(), []), ('empty linspace', cirq.Linspace('a', 0, 1, 0), []), ('unit', cirq.UnitSweep, [{}]), ('empty product', cirq.Product(), [{}]),
+        ('product with empty factor', cirq.Product(cirq.Points('a', [1.0, 2.0]), cirq.Points('b', [])), []), ('list with empty sweep', [cirq.Points('a', []), cirq.Points('b', [1.0])], [{'b': 1.0}]),
+        ('symbol keys', {sympy.Symbol('a'): [0.5]}, [{'a': 0.5}]), ('nested lists', [[R({'a': 1.0})], cirq.Points('a', [2.0])], [{'a': 1.0}, {'a': 2.0}]),
+    ]
+    for name, sweepable, want in cases:
+        ctx.count('check', 'sweepable')
+        ctx.case(['sweepable', name], True)
+        try:
+            got = [params_of(r) for r in cirq.to_resolvers(sweepable)]
+            got2 = [params_of(r) for sw in cirq.to_sweeps(sweepable) for r in sw]
+        except (TypeError, ValueError) as e:
+            got = got2 = f'{type(e).__name__}: {e}'[:100]
+        norm = lambda g: [{k: float(v) for k, v in x} for x in g] if isinstance(g, list) else g
+        if norm(got) != want or norm(got2) != want:
+            ctx.report_witness('sweep:sweepable', f'cirq.to_resolvers / to_sweeps of a sweepable ({name}) does not enumerate the assignments it stands for',
+                               {'lines': [{'sweepable': repr(sweepable)[:300]}], 'impl_out': [repr(got)[:400], repr(got2)[:400]], 'spec_out': [repr(want)], 'theorem_or_correspondence': 'C10_len_eq_tuples'})
+
+
+def check_linear_combinations(ctx, cirq, sympy, n):
+    """resolving a linear combination of gates / operations = substituting into every term (terms that become equal add up)"""
+    rng = ctx.substream('lincomb')
+    a, b = sympy.symbols('a b')
+    q = cirq.LineQubit(0)
+    for _ in range(n):
+        fam = rng.choice([cirq.X, cirq.Y, cirq.Z, cirq.H])
+        exps = [rng.choice([a, b, a + b, 2 * a, 0.5, b - a]) for _ in range(rng.randint(2, 3))]
+        coefs = [rng.choice([2, 3, -1, 0.5, a, 1j]) for _ in exps]
+        vals = rng.choice([{'a': 0.5, 'b': 0.5}, {'a': 0.25, 'b': 0.5}, {'a': 0.0, 'b': 0.5}, {'a': rng.uniform(-1, 1), 'b': rng.uniform(-1, 1)}])
+        sub = lambda e: complex(sympy.sympify(e).subs({a: vals['a'], b: vals['b']}))
+        want = sum(sub(c) * cirq.unitary(fam ** float(sub(e).real)) for c, e in zip(coefs, exps))
+        for kind in ('gates', 'operations'):
+            terms = {}
+            for c, e in zip(coefs, exps):
+                key = (fam ** e) if kind == 'gates' else (fam ** e).on(q)
+                if key in terms:
+                    break
+                terms[key] = c
+            else:
+                lc = cirq.LinearCombinationOfGates(terms) if kind == 'gates' else cirq.LinearCombinationOfOperations(terms)
+                ctx.count('check', 'lincomb:' + kind)
+                ctx.case(['lincomb', kind, repr(lc), repr(vals)], True)
+                try:
+                    got = cirq.resolve_parameters(lc, vals).matrix()
+                except (TypeError, ValueError) as e:
+                    ctx.count('lincomb_error', type(e).__name__)
+                    continue
+                if got.shape != want.shape or not np.allclose(got, want, atol=1e-8):
+                    ctx.report_witness(f'resolve:linear-combination:{kind}', 'resolving a linear combination differs from substituting the values into each term',
+                                       {'lines': [{'combination': repr(lc), 'values': vals}], 'impl_out': [repr(np.round(got, 6).tolist())], 'spec_out': [repr(np.round(want, 6).tolist())], 'theorem_or_correspondence': 'resolve_then_compute'})
 
 
 def rand_expr(rng, sympy, names, depth):
@@ -345,6 +423,29 @@ def check_circuits(ctx, cirq, sympy, n):
                 ctx.report_witness('circuit:flatten:subcircuit', 'cirq.flatten leaves the expressions inside a CircuitOperation symbolic while transform_params drops the original symbols',
                                    {'lines': [{'circuit': repr(sc)}], 'impl_out': [sorted(cirq.parameter_names(flat))], 'spec_out': ['only fresh symbols'], 'theorem_or_correspondence': 'flatten_preserves'})
             continue
+        # flatten_with_sweep / flatten_with_params: the flattened circuit under the transformed assignments is the circuit under the original ones
+        try:
+            flat_s, new_sweep = cirq.flatten_with_sweep(sc, sweep)
+            pairs = list(zip(cirq.to_resolvers(sweep), cirq.to_resolvers(new_sweep)))
+            vv0 = {'a': rng.uniform(-1, 1), 'b': rng.uniform(-1, 1)}
+            flat_p, new_params = cirq.flatten_with_params(sc, vv0)
+            pairs_p = [(cirq.ParamResolver(vv0), cirq.ParamResolver(new_params))]
+        except (TypeError, ValueError) as e:
+            ctx.count('flatten_error', f'{type(e).__name__}:{str(e)[:40]}')
+            pairs, pairs_p, flat_s, flat_p = [], [], None, None
+        ctx.count('check', 'flatten_with_sweep')
+        for fname, fc, prs in (('flatten_with_sweep', flat_s, pairs), ('flatten_with_params', flat_p, pairs_p)):
+            for r_old, r_new in prs:
+                try:
+                    u_a = cirq.resolve_parameters(sc, r_old).unitary(qubit_order=qs)
+                    u_b = cirq.resolve_parameters(fc, r_new).unitary(qubit_order=qs)
+                    okf = np.allclose(u_a, u_b, atol=1e-8)
+                except (TypeError, ValueError):
+                    okf = False  # still parameterized: the transformed assignment does not bind every symbol of the flattened circuit
+                if not okf:
+                    ctx.report_witness(f'circuit:{fname}', f'{fname}: the flattened circuit under the transformed assignment differs from the circuit under the original assignment (or stays symbolic)',
+                                       {'lines': [{'circuit': repr(sc), 'assignment': repr(r_old)}], 'impl_out': [repr(fc)[:800], repr(r_new)[:300]], 'spec_out': ['same unitary'], 'theorem_or_correspondence': 'flatten_preserves'})
+                    break
         for trial in range(2):
             vv = {'a': rng.uniform(-1, 1), 'b': rng.uniform(-1, 1)}
             rflat = emap.transform_params(vv)
